@@ -6,19 +6,63 @@ import (
 	"os"
 	"strconv"
 
-	"verif/mc/explore"
-	"verif/mc/harness/smoke"
+	"verif/mc/fw"
+	_ "verif/mc/harness"
 )
 
 func main() {
-	if len(os.Args) > 1 && os.Args[1] == "smoke" {
-		b := 2
-		if len(os.Args) > 2 {
-			b, _ = strconv.Atoi(os.Args[2])
+	if len(os.Args) < 2 {
+		fmt.Println("usage: kvcheck check <ID> <tier> | unit ... | replay <file> | list")
+		os.Exit(2)
+	}
+	switch os.Args[1] {
+	case "list":
+		for _, id := range fw.IDs() {
+			fmt.Println(id)
 		}
-		st := explore.Explore(smoke.Scenario(), explore.Options{Bound: b, Cache: len(os.Args) > 3})
-		j, _ := json.MarshalIndent(st, "", " ")
-		fmt.Println(string(j))
-		return
+	case "units":
+		for _, u := range fw.Get(os.Args[2]).Units(os.Args[3]) {
+			fmt.Println(u)
+		}
+	case "check":
+		os.Exit(fw.ParentMain(os.Args[2], os.Args[3]))
+	case "unit":
+		dl, _ := strconv.ParseInt(os.Args[6], 10, 64)
+		seed, _ := strconv.Atoi(os.Args[7])
+		fw.WorkerMain(os.Args[2], os.Args[3], os.Args[4], os.Args[5], dl, seed)
+	case "one":
+		// run one unit in-process and print its result (debugging)
+		c := fw.Get(os.Args[2])
+		diag := fw.Silence()
+		r := c.Run(os.Args[4], &fw.Env{Tier: os.Args[3], Thorough: os.Args[3] == "thorough"})
+		b, _ := json.MarshalIndent(r, "", " ")
+		fmt.Fprintln(diag, string(b))
+	case "replay":
+		b, err := os.ReadFile(os.Args[2])
+		if err != nil {
+			fmt.Println(err)
+			os.Exit(2)
+		}
+		var w struct {
+			Property    string          `json:"property"`
+			Fingerprint string          `json:"fingerprint"`
+			What        string          `json:"what"`
+			Unit        string          `json:"unit"`
+			Witness     json.RawMessage `json:"witness"`
+		}
+		json.Unmarshal(b, &w)
+		c := fw.Get(w.Property)
+		if c == nil || c.Replay == nil {
+			fmt.Println("no replay for", w.Property)
+			os.Exit(2)
+		}
+		var wit any
+		json.Unmarshal(w.Witness, &wit)
+		diag := fw.Silence()
+		out := c.Replay(&fw.Violation{Fingerprint: w.Fingerprint, What: w.What, Unit: w.Unit, Witness: wit})
+		fmt.Fprintln(diag, out)
+	default:
+		fmt.Println("unknown command")
+		os.Exit(2)
 	}
 }
